@@ -15,7 +15,8 @@
       leading zero only in zero, floats and imaginaries).  G: every literal up to MaxLen is emitted. *)
 EXTENDS Naturals, Sequences, TLC, Json
 
-CONSTANTS MaxLen, Emit
+CONSTANTS MaxLen, Emit,
+          AllStrings   \* also follow characters that kill the automaton: every string over the alphabet is visited
 
 VARIABLES text, st, done
 vars == <<text, st, done>>
@@ -61,8 +62,8 @@ Class(s) == CASE s \in {"Z", "Z0", "D", "X", "O", "B"} -> "int" [] s \in {"F", "
 Radix(s) == CASE s = "X" -> 16 [] s = "O" -> 8 [] s = "B" -> 2 [] OTHER -> 10
 
 Init == text = <<>> /\ st = "S0" /\ done = FALSE
-Grow == ~done /\ Len(text) < MaxLen /\ \E c \in Alphabet : Step(st, c) # Dead /\ text' = Append(text, c) /\ st' = Step(st, c) /\ UNCHANGED done
-Stop == ~done /\ Class(st) # "none" /\ done' = TRUE /\ UNCHANGED <<text, st>>
+Grow == ~done /\ Len(text) < MaxLen /\ \E c \in Alphabet : (AllStrings \/ Step(st, c) # Dead) /\ text' = Append(text, c) /\ st' = Step(st, c) /\ UNCHANGED done
+Stop == ~done /\ text # <<>> /\ (AllStrings \/ Class(st) # "none") /\ done' = TRUE /\ UNCHANGED <<text, st>>
 Next == Grow \/ Stop
 Spec == Init /\ [][Next]_vars
 
@@ -70,10 +71,10 @@ Spec == Init /\ [][Next]_vars
 Count(c) == Len(SelectSeq(text, LAMBDA x : x = c))
 IsDigitHere(i) == i >= 1 /\ i <= Len(text) /\ (text[i] \in Dec \/ (Radix(st) = 16 /\ text[i] \in HexD) \/ (st \in {"X0", "XU", "X"} /\ text[i] \in HexD))
 \* an underscore stands between two digits, or right after the radix prefix
-UnderscoresOK == done => \A i \in 1..Len(text) : text[i] = "_" =>
+UnderscoresOK == (done /\ Class(st) # "none") => \A i \in 1..Len(text) : text[i] = "_" =>
                     /\ i < Len(text) /\ IsDigitHere(i + 1)
                     /\ (IsDigitHere(i - 1) \/ (i = 3 /\ text[1] = "0" /\ text[2] \in {"x", "o", "b"}))
-ShapeOK == done => /\ Count(".") <= 1
+ShapeOK == (done /\ Class(st) # "none") => /\ Count(".") <= 1
                    /\ (Class(st) = "int" => Count(".") = 0 /\ Count("j") = 0 /\ Count("+") + Count("-") = 0)
                    /\ (Class(st) = "imag" => text[Len(text)] = "j")
                    /\ (Radix(st) = 10 /\ Class(st) = "int" /\ text[1] = "0" => \A i \in 1..Len(text) : text[i] \in {"0", "_"})
@@ -81,7 +82,8 @@ ShapeOK == done => /\ Count(".") <= 1
 (* ---------------------------------------------------------------- emission *)
 RECURSIVE Cat(_)
 Cat(ss) == IF ss = <<>> THEN "" ELSE ss[1] \o Cat(Tail(ss))
-Clean == LET body == IF Radix(st) # 10 THEN SubSeq(text, 3, Len(text)) ELSE IF Class(st) = "imag" THEN SubSeq(text, 1, Len(text) - 1) ELSE text
+Clean == IF Class(st) = "none" THEN "" ELSE
+         LET body == IF Radix(st) # 10 THEN SubSeq(text, 3, Len(text)) ELSE IF Class(st) = "imag" THEN SubSeq(text, 1, Len(text) - 1) ELSE text
          IN Cat(SelectSeq(body, LAMBDA x : x # "_"))
 EmitOK == (Emit /\ done) => PrintT("REPLAY" \o ToJson([text |-> Cat(text), class |-> Class(st), radix |-> Radix(st), clean |-> Clean]))
 =============================================================================
